@@ -8,7 +8,7 @@ MODEL_FN = 'Model/Pipe.v:pipe_step (whole-datagram steps), message count of the 
 RULE = ('workloads: a sequential prologue announcing templates (no redefinitions) and sampling rates for 4 exporter scopes '
         '(v9 and IPFIX, several domains), then 20..60 data-only v9/IPFIX messages, NetFlow v5 and sFlow datagrams processed by '
         '2, 3, 8, 16 or 32 goroutines calling DecodeFlow on one shared auto pipe / producer / format / recording transport '
-        'with random yields, harness built with -race; compared with a sequential run of the same datagrams on a fresh pipe: '
+        'with random yields, harness built with -race, once with an in-memory recording transport (bin format) and once with the JSON format and the real file transport; compared with a sequential run of the same datagrams on a fresh pipe: '
         'same number of Send calls as the model\'s sequential run, same multiset of payloads, and the messages of each datagram '
         '(recognised by its unique receive time) in the same order; the race detector must stay silent. '
         'non-trivial = a workload that produced at least 50 messages; distinct by input')
@@ -52,4 +52,23 @@ def run(chk):
             chk.record('scopeA', dict(concrete=True, input=a[:40000], impl=o, expected=e,
                        what='concurrent processing delivered a different multiset / per-datagram order / count than sequential processing'), {})
     chk.samples.append(dict(stream='workload', workers=ins[0].split(' ')[1], input=ins[0][:400], impl=outs[0], expected=exp[0]))
+    # the same workloads through the JSON format and the real file transport (one shared O_APPEND file)
+    fins = ['parfile' + a[3:] for a in ins]
+    # one process per workload: the registered file transport is initialised once per process, as in the collector
+    fouts, err2 = [], ''
+    for fl in fins:
+        p2 = subprocess.run([chk.harness, 'run'], input=(fl + '\n').encode(), stdout=subprocess.PIPE,
+                            stderr=subprocess.PIPE, timeout=600, env=env)
+        fouts.append((p2.stdout.decode().split('\n') + [''])[0])
+        err2 += p2.stderr.decode(errors='replace')
+    chk.evals += len(fins)
+    chk.count('workloads through the file transport', len(fins))
+    if err2.count('WARNING: DATA RACE'):
+        chk.record('scopeA-race', dict(concrete=True, input=fins[0][:20000], impl=err2[:6000],
+                   what='the Go race detector reported a data race (file transport workloads)'), {})
+    for a, e, o in zip(fins, exp, fouts):
+        if o != e:
+            chk.record('scopeA', dict(concrete=True, input=a[:40000], impl=o, expected=e,
+                       what='workers sharing the file transport wrote a different multiset of lines / per-datagram order than sequential processing'), {})
+    chk.samples.append(dict(stream='file-transport', input=fins[0][:300], impl=fouts[0], expected=exp[0]))
     return chk.finish(me)
